@@ -82,7 +82,7 @@ def gen_decls(rng, names, vis, n_items, allow=("enum", "struct", "impl", "servic
         if k == "enum":
             n = rng.randint(1, 4)
             vals = rng.sample(range(0, 40), n)
-            d = {"kind": "enum", "name": names.enum(), "values": [[a, v] for a, v in zip(rng.sample(S.ENUMERATORS, n), vals)]}
+            d = {"kind": "enum", "name": _case_twin(rng, vis) or names.enum(), "values": [[a, v] for a, v in zip(rng.sample(S.ENUMERATORS, n), vals)]}
             vis["enums"].append(d["name"])
         elif k == "struct":
             nf = rng.randint(1, 4)
@@ -90,7 +90,8 @@ def gen_decls(rng, names, vis, n_items, allow=("enum", "struct", "impl", "servic
             for fi, fn in enumerate(rng.sample(S.WORDS, nf)):
                 f = {"name": fn, "id": fi, "type": gen_type(rng, vis["structs"], vis["enums"])}
                 if rng.random() < 0.2:
-                    f["unit"] = rng.choice(["C", "V", "rpm", "%", "m/s", "\u00b0C", "\u00b5s", "\u03a9", "km/h\tfront", "a  b", "C:\\\\", "q\\\"uote"])
+                    f["unit"] = rng.choice(["C", "V", "rpm", "%", "m/s", "\u00b0C", "\u00b5s", "\u03a9", "km/h\tfront", "a  b", "C:\\\\", "q\\\"uote",
+                                            "%s", "100%d", "{0}", "%(n)s", "{}"])
                 if rng.random() < 0.12 and f["type"][0] in ("u", "i", "f32", "f64"):
                     f["range"] = [0.0, rng.randint(1, 100) + 0.5]
                 fields.append(f)
@@ -99,7 +100,7 @@ def gen_decls(rng, names, vis, n_items, allow=("enum", "struct", "impl", "servic
                 ids = rng.sample(range(0, 2 * len(fields) + 1), len(fields))
                 for f, i_ in zip(fields, ids):
                     f["id"] = i_
-            d = {"kind": "struct", "name": names.struct(), "fields": fields}
+            d = {"kind": "struct", "name": _case_twin(rng, vis) or names.struct(), "fields": fields}
             vis["structs"].append(d["name"])
         elif k == "impl":
             s = rng.choice(vis["structs"])
@@ -124,6 +125,10 @@ def gen_decls(rng, names, vis, n_items, allow=("enum", "struct", "impl", "servic
             if rng.random() < 0.35:
                 sigs.append({"name": rng.choice(S.WORDS), "fields": [["endianess", rng.choice(["big", "little"])]]
                              + ([["mux_count", rng.randint(2, 8)], ["mux_signal", rng.choice(S.WORDS)]] if rng.random() < 0.4 else [])})
+                if rng.random() < 0.4:
+                    # a second signal block (another field name)
+                    sigs.append({"name": rng.choice([w for w in S.WORDS if w != sigs[0]["name"]]),
+                                 "fields": [["endianess", rng.choice(["big", "little"])]]})
             d = {"kind": "impl", "protocol": proto, "type": s, "name": alias, "fields": fl, "signals": sigs}
         elif k == "service":
             ms = []
@@ -147,6 +152,18 @@ def gen_decls(rng, names, vis, n_items, allow=("enum", "struct", "impl", "servic
             d = {"kind": "device", "name": dname_, "fields": fl}
         out.append(d)
     return out
+
+
+def _case_twin(rng, vis):
+    """Occasionally a type is named like an existing type in another letter case (STATE next to State): distinct names."""
+    have = vis["structs"] + vis["enums"]
+    if not have or rng.random() >= 0.05:
+        return None
+    base = rng.choice(have)
+    for cand in (base.upper(), base.lower(), base[0].lower() + base[1:]):
+        if cand not in have:
+            return cand
+    return None
 
 
 def new_vis():
